@@ -236,3 +236,19 @@ Fixpoint seq_ok_excl (excl : term -> vt -> req -> bool) (t : term) (v : vt) (qs 
         vt_ok (vt_run ts v) /\
         seq_ok_excl excl t' (vt_run ts v) rest
   end.
+
+(* the oracle's walk with the recorded trigger class treated like an out-of-range request:
+   used to attribute a failing case to the finding only if nothing else is wrong with it *)
+Fixpoint oracle_walk_excl (i : nat) (v : vt) (obs : list (req * bool * list Z)) : verdict :=
+  match obs with
+  | [] => VOk i
+  | (q, ret, bytes) :: rest =>
+      if negb (vt_okb v && in_rangeb q v) then VOutOfRange i
+      else if match q with RErase n me => erase_trigger (a_reverse (v_sgr v)) n me v | _ => false end
+      then VOutOfRange i
+      else
+        let v' := vt_freeze (vt_run_bytes bytes v) in
+        if effect_okb q ret (match bytes with [] => true | _ => false end) v v'
+        then oracle_walk_excl (S i) v' rest
+        else VBadAt i
+  end.
